@@ -53,6 +53,13 @@ def scenarios(tier, rng):
         out.append(base_scenario(f"{kind}-{pname}-verbose-interloper-m{keep}", kind, pname, pspec, full, 1, keep, True,
                                  [{"ops": [{"op": "new"}, {"op": "interloper", "verbose": 4}, {"op": "solve", "k": 7},
                                            {"op": "wait"}, {"op": "list", "dir": "@A"}]}]))
+    # directory names with spaces and trailing slashes
+    for kind, pname in (("VI", "forest"), ("PI", "tabular")):
+        pspec, full = P[pname]
+        out.append(base_scenario(f"{kind}-{pname}-dirname-with-space", kind, pname, pspec, full, 2, 2, True,
+                                 [{"ops": [{"op": "new"}, {"op": "solve", "k": 5}, {"op": "wait"}, {"op": "list", "dir": "@A"}]},
+                                  {"ops": [{"op": "list", "dir": "@A"}, restore_op(full), {"op": "solve", "k": 3},
+                                           {"op": "wait"}, {"op": "list", "dir": "@A"}]}], dirstyle="space_slash"))
     # more than nine retained checkpoints, steps with one and two digits
     pspec, full = P["tabular"]
     out.append(base_scenario("VI-tabular-keep12-f1", "VI", "tabular", pspec, full, 1, 12, False,
